@@ -404,6 +404,9 @@ func (b *Builder) AddDeviate(o interface{}) *AddDeviate {
 	d, valid := o.(*Deviation)
 	if !valid {
 		b.setErr(fmt.Errorf("%T does not allow deviate, only deviations do", o))
+	} else if d.Add != nil {
+		// a further deviate of the same kind in one deviation adds to the first
+		return d.Add
 	} else {
 		d.Add = &add
 	}
@@ -415,6 +418,9 @@ func (b *Builder) ReplaceDeviate(o interface{}) *ReplaceDeviate {
 	d, valid := o.(*Deviation)
 	if !valid {
 		b.setErr(fmt.Errorf("%T does not allow deviate, only deviations do", o))
+	} else if d.Replace != nil {
+		// a further deviate of the same kind in one deviation adds to the first
+		return d.Replace
 	} else {
 		d.Replace = &x
 	}
@@ -426,6 +432,9 @@ func (b *Builder) DeleteDeviate(o interface{}) *DeleteDeviate {
 	d, valid := o.(*Deviation)
 	if !valid {
 		b.setErr(fmt.Errorf("%T does not allow deviate, only deviations do", o))
+	} else if d.Delete != nil {
+		// a further deviate of the same kind in one deviation adds to the first
+		return d.Delete
 	} else {
 		d.Delete = &x
 	}
